@@ -338,6 +338,7 @@ mod unboxed {
         (Self::Number(num1), Self::Number(num2)) => num1 == num2,
         (Self::Bool(b1), Self::Bool(b2)) => b1 == b2,
         (Self::Nil, Self::Nil) => true,
+        (Self::Undefined, Self::Undefined) => true,
         (Self::Obj(obj1), Self::Obj(obj2)) => obj1 == obj2,
         _ => false,
       }
